@@ -252,6 +252,7 @@ class Ctx:
         self.depth = 0
         self.side_unknown = []
         self._pending = []
+        self.concrete = None    # differential mode: label -> concrete input value
         self.record_smt = record_smt
         self.ghost = {}
         self.notes = []
@@ -285,6 +286,9 @@ class Ctx:
         return z3.Bool("%s!%d" % (name, self.fresh_n))
 
     def input_int(self, label, lo, hi):
+        if self.concrete is not None:
+            v = int(self.concrete.get(label, lo if lo > 0 else min(max(0, lo), hi)))
+            return max(lo, min(hi, v))
         if self.pure:
             raise ImpureAbort()
         c = z3.BitVec("in!" + label, 64)
@@ -298,6 +302,8 @@ class Ctx:
         return v
 
     def input_bool(self, label):
+        if self.concrete is not None:
+            return bool(self.concrete.get(label, False))
         if self.pure:
             raise ImpureAbort()
         c = z3.Bool("in!" + label)
@@ -314,6 +320,8 @@ class Ctx:
         return c
 
     def input_byte(self, label):
+        if self.concrete is not None:
+            return int(self.concrete.get(label, 0)) & 0xFF
         if self.pure:
             raise ImpureAbort()
         c = z3.BitVec("in!" + label, 8)
